@@ -463,6 +463,13 @@ class Src:
             v, suf = e[1], e[2]
             form = self.r.choice(["dec", "dec", "hex", "bin"]) if v < (1 << 64) else self.r.choice(["dec", "hex"])
             body = str(v) if form == "dec" else ("0x%x" % v if form == "hex" else "0b" + bin(v)[2:])
+            if self.r.random() < 0.3:
+                # digit separators: between digits, and (hex / binary) after the last digit
+                head, digits = ("", body) if form == "dec" else (body[:2], body[2:])
+                digits = "".join(ch + ("_" if k < len(digits) - 1 and self.r.random() < 0.3 else "") for k, ch in enumerate(digits))
+                if form != "dec" and self.r.random() < 0.3:
+                    digits += "_"
+                body = head + digits
             return body + (KW_OF[suf] if suf else "")
         if k == "str":
             parts = split_string(self.r, e[1])
